@@ -25,7 +25,9 @@ fn xor_dist(a: &[u8], b: &[u8]) -> Vec<u8> { a.iter().zip(b).map(|(x, y)| x ^ y)
 
 pub fn gen_scenario(rng: &mut Rng, idx: usize, thorough: bool) -> Vec<String> {
     let kinds = ["boot", "boot", "early", "refresh", "fresh", "e2e", "probe"];
-    let kind = kinds[idx % kinds.len()];
+    // thorough tier: every 14th case is a two-day network run (announce, re-announce, search
+    // shortly before and shortly after the 24 h mark)
+    let kind = if thorough && idx % 14 == 13 { "e2e24" } else { kinds[idx % kinds.len()] };
     vec![format!("scenario node seed={} kind={kind} thorough={}", rng.next() % 1_000_000_007, if thorough { 1 } else { 0 })]
 }
 
@@ -274,7 +276,7 @@ pub async fn run_scenario(world: &mut World, req: &str, case: usize, out: &mut V
 
     // ---- the online loop
     let mut steps = 0usize;
-    let max_steps = if thorough { 400_000 } else { 40_000 };
+    let max_steps = if thorough { 600_000 } else { 40_000 };
     let mut raw = vec![];
     loop {
         steps += 1;
@@ -431,7 +433,38 @@ fn build_other(kind: &str, rng: &mut Rng, sim: &mut Sim, ck: &mut Checker, v6: b
                 }
             }
             sim.end = t_search + 40 * S;
-            ck.e2e = Some(E2e { ih, announcers: announcers.iter().map(|k| { let mut a = addrs[*k]; if let Some(p) = ports[*k] { a.set_port(p) } (*k, a) }).collect(), searchers, t_search, last_ack: HashMap::new() });
+            ck.e2e = Some(E2e { ih, announcers: announcers.iter().map(|k| { let mut a = addrs[*k]; if let Some(p) = ports[*k] { a.set_port(p) } (*k, a) }).collect(), searchers, t_search, last_ack: HashMap::new(), pending: HashSet::new() });
+        }
+        // C01, the 24 h clause end to end: announce, optionally re-announce hours later, search
+        // 23.5 h after the last announce (must find) and 24 h 10 min after it (must not)
+        "e2e24" => {
+            let r = rng.range(2, 3) as usize;
+            sim.lat_ms = (1, 900);
+            let ih = rng.bytes(20);
+            let addrs: Vec<SocketAddr> = (0..r).map(|k| real_addr(v6, k)).collect();
+            let mut ports = vec![];
+            for k in 0..r {
+                let id = rng.bytes(20);
+                sim.reals.push((k, id.clone(), addrs[k]));
+                let others: Vec<String> = addrs.iter().enumerate().filter(|(j, _)| *j != k).map(|(_, a)| addr_str(a)).collect();
+                let port = if rng.chance(1, 2) { None } else { Some(rng.range(1, 65535) as u16) };
+                ports.push(port);
+                sim.schedule(t0, format!("nnew {k} {} addr={} ro=0 port={} routers=- nodes={}", hex(&id), addr_str(&addrs[k]), port.map(|p| p.to_string()).unwrap_or("none".into()), dash(&others)));
+            }
+            let t_ann = t0 + 20 * S;
+            sim.schedule(t_ann, format!("api 0 search {} 1", hex(&ih)));
+            let t_last = if rng.chance(2, 3) {
+                let again = t_ann + rng.range(3600, 6 * 3600) as u128 * S;
+                sim.schedule(again, format!("api 0 search {} 1", hex(&ih)));
+                again
+            } else { t_ann };
+            let searcher = r - 1;
+            sim.schedule(t_last + 23 * 3600 * S + 1800 * S, format!("api {searcher} search {} 0", hex(&ih)));
+            sim.schedule(t_last + 24 * 3600 * S + 600 * S, format!("api {searcher} search {} 0", hex(&ih)));
+            sim.end = t_last + 24 * 3600 * S + 700 * S;
+            let mut a = addrs[0];
+            if let Some(p) = ports[0] { a.set_port(p) }
+            ck.e2e = Some(E2e { ih, announcers: vec![(0, a)], searchers: vec![searcher], t_search: t_last, last_ack: HashMap::new(), pending: HashSet::new() });
         }
         _ => {}
     }
@@ -447,6 +480,8 @@ struct E2e {
     t_search: u128,
     /// announcer node -> time of the last acknowledged announce_peer
     last_ack: HashMap<usize, u128>,
+    /// announce_peer queries on their way: (announcer node, transaction id)
+    pending: HashSet<(usize, Vec<u8>)>,
 }
 
 #[derive(Default)]
@@ -666,7 +701,16 @@ impl Checker {
         if let Some(e2e) = self.e2e.as_mut() {
             if w[0] == "dg" && w.get(4) == Some(&"r") {
                 let k: usize = w[1].parse().unwrap();
-                if e2e.announcers.iter().any(|a| a.0 == k) { e2e.last_ack.insert(k, now); }
+                if let Some(tid) = world.tid_bytes(w[2]) {
+                    if e2e.pending.remove(&(k, tid)) { e2e.last_ack.insert(k, now); st.hit("e2e_announce_acked"); }
+                }
+            }
+            for e in &world.last {
+                if let Some((_, bytes, true)) = &e.sent {
+                    if let Ok(m) = Message::decode(bytes) {
+                        if matches!(m.body, MessageBody::Request(Request::AnnouncePeer(_))) { e2e.pending.insert((e.node, m.transaction_id.clone())); }
+                    }
+                }
             }
         }
     }
